@@ -554,37 +554,28 @@ func checkJpegMarkerTable(p *Program, r *Report) {
 	for v := int64(0xd0); v <= 0xd7; v++ {
 		standalone[v] = true
 	}
+	// the classifier is interpreted once per declared marker value (a switch, range
+	// tests or a table all come out the same way)
 	e := NewEngine(p)
-	st := newState()
+	e.EvalInits = true
 	s := &Stream{Name: "in"}
-	st.pos[s] = formInt(0)
-	outs := e.Run(mm, []Val{e.A.Var("mType", types.Typ[types.Uint8]), &ReaderVal{S: s}}, st)
 	byConst := map[int64][]Outcome{}
-	for _, o := range outs {
-		if o.Kind != "return" {
-			r.Undecide("C05.dispatch", "jpeg makeMarker", p.Pos(o.Pos), "not extractable: "+o.Why)
-			return
-		}
-		for _, c := range o.St.conds {
-			if c.Op != "==" {
-				continue
+	for _, c := range consts {
+		st := newState()
+		st.pos[s] = formInt(0)
+		for _, o := range e.Run(mm, []Val{formInt(c.val), &ReaderVal{S: s}}, st) {
+			if o.Kind != "return" {
+				r.Undecide("C05.dispatch", "jpeg makeMarker", p.Pos(o.Pos), fmt.Sprintf("not extractable for marker %#x: %s", c.val, o.Why))
+				return
 			}
-			a, okA := c.A.(*Form)
-			b, okB := c.B.(*Form)
-			if okA && okB {
-				if an, isA := a.SingleAtom(); isA && an == "mType" {
-					if cv, isC := b.ConstInt(); isC {
-						byConst[cv] = append(byConst[cv], o)
-					}
-				}
-			}
+			byConst[c.val] = append(byConst[c.val], o)
 		}
 	}
 	for _, c := range consts {
 		key := fmt.Sprintf("jpeg marker %s (%#x)", c.name, c.val)
 		os := byConst[c.val]
 		if len(os) != 1 {
-			r.Violate("C05.dispatch", key, p.FnPos(mm), fmt.Sprintf("marker value reaches %d arms of makeMarker; exactly one expected (a marker missing from the table makes every file containing it unreadable)", len(os)))
+			r.Violate("C05.dispatch", key, p.FnPos(mm), fmt.Sprintf("makeMarker has %d outcomes for this marker value; exactly one expected", len(os)))
 			continue
 		}
 		o := os[0]
